@@ -7,6 +7,34 @@ NOTE = ("Trusted base: rustc nightly front end + MIR (E1 facts come from the rea
         "default features), syn 2 parser (E2), the Python rule layer and its hand-confirmed ledgers. Decides structural "
         "necessary conditions on /repo's current source; does not execute goml programs or emitted Go.")
 
+# clauses added after the second seeding round and from defects the seeding agents ran into (appended to the level text)
+EXTRA = {
+ "C03": "Also decided: substitution resolves completely (TVar arms that read the union-find re-apply themselves), the type scheme a call "
+        "site instantiates carries the declared trait bounds (known finding), a child expression is type-checked by one loop per path.",
+ "C04": "Also decided: guarded indexing in the byte scanners, a dependency missing at link is an error before the back end, look-ahead "
+        "loops draw no stuck-parser fuel, `go f` on a plain function value and doubled type-checking work (shared clauses).",
+ "C06": "Also decided: case-splitting functions copy unconstrained rows to every sub-matrix, destructuring-let matrices end with a failure "
+        "row, and a bare identifier pattern is classified against the constructors of the whole package, not of one file.",
+ "C08": "Also decided: types of rebuilt nodes in closure conversion come from the converted children, lift.rs's closure-type predicates "
+        "descend through every type former (known findings TVec/TRef), `go` accepts a plain function value.",
+ "C09": "Also decided: the effect-position emitter decides every ANF form explicitly and emits a statement for every call form.",
+ "C10": "Also decided: a literal is range-checked and defaulted at one type, float literals keep a fractional form in Go (known finding), "
+        "literals stored in an `any` slot carry their type, the unsuffixed integer pattern is built at its recorded type, two-literal "
+        "operands are not Go constant expressions (known finding).",
+ "C11": "Also decided: type lowering is form-preserving; the argument vector of one call is handed on whole.",
+ "C12": "Also decided: Parser::eof does not depend on the stuck-parser fuel; every grammar loop makes progress (shared with C04).",
+ "C13": "A sort counts as canonical only if its key is injective (no lossy function in sort_by_key/sort_by closures).",
+ "C14": "Also decided: every package's exports and code are merged unconditionally in both pipelines; one canonical source-file order.",
+ "C15": "Deserialisation sites are searched in the library and in the CLI.",
+ "C17": "Also decided: static and dyn call forms are both emitted in effect position; call arguments are type-checked once (a second "
+        "pass records the dyn coercion twice).",
+ "C18": "Also decided: sibling derive entry points reject the same definitions; one obligation per field-type form; any Go formatting "
+        "verb in the JSON string encoder is a violation.",
+ "C19": "Also decided: fresh names carry the generator's own counter; the entry-function test compares whole names.",
+ "C20": "Also decided: invariants the site ledger rests on (non-empty paths before `.expect`) are checked structurally; recorded types "
+        "are fully resolved (shared with C03).",
+}
+
 CLAIMED = {
  "C01": dict(
    text="Semantic preservation is NOT decided. Decided on every arm of every pass: pass totality (no catch-all over the input IR, anchor "
@@ -182,7 +210,9 @@ def main():
     for p in props:
         pid = p["id"]
         if pid in CLAIMED:
-            c = CLAIMED[pid]
+            c = dict(CLAIMED[pid])
+            if pid in EXTRA:
+                c["text"] = c["text"] + " " + EXTRA[pid]
             m["checks"].append({
                 "property_id": pid,
                 "quick_cmd": f"./check {pid} --tier quick",
